@@ -238,13 +238,29 @@ def r2_effect_kinds(ctx, F):
         zero = bool(inc) and bool(occ) and all(sn.edges_dominate(occ, i) for i in inc) and \
             not any(x in sn.reach([e[1] for e in occ], cut_blocks=inc) for x in sn.returns)
     else:
+        # the entry matched by hand: `match m.entry(e) { Occupied(mut c) => *c.get_mut() += 1, Vacant(s) => {
+        # s.insert(1); } }` - one more on the occupied path, exactly 1 on the vacant one
+        esw = [sw for sw in sn.switches if sw.kind == 'variant' and sw.bb in blocks and sw.edges_for('Occupied') and
+               sw.edges_for('Vacant')]
         zero = False
+        if len(esw) == 1:
+            occ = esw[0].edges_for('Occupied')
+            vac = esw[0].edges_for('Vacant')
+            vins = [c for c in cs if c.is_('VacantEntry::insert', 'VacantEntry::insert_entry') and len(c.args) >= 2 and
+                    sn.val(c.args[1]).kind == 'const' and sn.val(c.args[1]).key == 1]
+            zero = bool(inc) and all(sn.edges_dominate(occ, i) for i in inc) and \
+                not any(x in sn.reach([e[1] for e in occ], cut_blocks=inc) for x in sn.returns) and \
+                len(vins) == 1 and sn.edges_dominate(vac, vins[0].bb) and \
+                not any(x in sn.reach([e[1] for e in vac], cut_blocks=[vins[0].bb]) for x in sn.returns)
     ctx.check(len(inc) == 1 and not ins and zero, rule, 'nondup-send-increments', sd,
               good='send on a non-duplicating network adds one to the multiplicity (starting from 0)',
               bad='Network::send on UnorderedNonDuplicating does not increment the multiplicity of the '
                   'envelope by one (increments: %d, overwriting inserts: %s, default of a new entry: %s): a second copy '
                   'of a message is lost or invented' % (len(inc), [c.short for c in ins], dflt))
     nondup_sites = [c.bb for c in ori]
+    if not ori and zero:
+        # hand-matched entry: the increment on the occupied path and the insert on the vacant one
+        nondup_sites = list(inc) + [c.bb for c in cs if c.is_('VacantEntry::insert', 'VacantEntry::insert_entry')]
     # send on duplicating inserts the envelope
     cs, blocks = arm_calls(F, sd, ssd, 'UnorderedDuplicating')
     ins = [c for c in cs if c.is_('HashSet::insert', 'HashableHashSet::insert')]
